@@ -59,24 +59,28 @@ type report struct {
 	Samples       []map[string]interface{} `json:"samples"`
 }
 
-func injectFor(pc string, rng *rand.Rand, n int) string {
-	k := 1
-	call := "write"
+// injectFor maps a program counter of FileLogger.tla at which TLC killed the process to the system call after
+// whose return the real process is killed: the router is then exactly between that call and its next step.
+func injectFor(pc string, rng *rand.Rand, n int, workdir bool) string {
 	switch pc {
-	case "sy_fsync", "cl_fsync":
-		call, k = "fsync", 1+rng.Intn(1+n/2)
-	case "cl_closefd":
-		call, k = "close", 4+rng.Intn(8)
-	case "cl_link":
-		call, k = "linkat", 1+rng.Intn(2)
-	case "cl_unlink":
-		call, k = "unlinkat", 1+rng.Intn(2)
-	case "uf_probe":
-		call, k = "openat", 5+rng.Intn(8)
-	default:
-		call, k = "write", 12+rng.Intn(8+6*n)
+	case "w_body": // file just opened by updateFile, nothing of the message written yet
+		return fmt.Sprintf("open:%d", 1+rng.Intn(3))
+	case "w_nl", "sy_gz", "sy_fsync", "cl_gz", "cl_fsync": // between the writes of a record / before the fsync covering it
+		return fmt.Sprintf("write:%d", 1+rng.Intn(2*n))
+	case "finish", "cl_closefd": // fsync has returned, FIN not yet issued / file not yet closed
+		return fmt.Sprintf("fsync:%d", 1+rng.Intn(1+n/2))
+	case "cl_link": // file closed, not yet linked into the output directory
+		return fmt.Sprintf("close:%d", 1+rng.Intn(3))
+	case "cl_unlink": // linked, work-dir name not yet removed
+		return fmt.Sprintf("link:%d", 1+rng.Intn(3))
+	case "uf_name", "uf_probe": // old file closed (and handed off), next file not yet opened
+		if !workdir {
+			return fmt.Sprintf("close:%d", 1+rng.Intn(3))
+		}
+		return fmt.Sprintf("unlink:%d", 1+rng.Intn(3))
+	default: // select, sync, closechk, exitchk, cl_start: some of the batch's FINs are out, the router is back in its loop
+		return fmt.Sprintf("fin:%d", 1+rng.Intn(n))
 	}
-	return fmt.Sprintf("%s:signal=SIGKILL:when=%d", call, k)
 }
 
 func main() {
@@ -122,6 +126,9 @@ func main() {
 			sc.Hups = append(sc.Hups, 50+rng.Intn(sc.SpanMs))
 		}
 		sc.Pre = rng.Intn(4)
+		if o.WorkDir && rng.Intn(2) == 0 {
+			sc.Foreign = 100 + rng.Intn(sc.SpanMs)
+		}
 		return sc
 	}
 	dims := func(o *scenOpts) {
@@ -190,12 +197,12 @@ func main() {
 				o.RotIntMs = 300 + rng.Intn(500)
 			}
 			dims(&o)
-			if k.Pc == "cl_link" || k.Pc == "cl_unlink" || k.Pc == "cl_closefd" || k.Pc == "uf_probe" {
+			if k.Pc == "cl_link" || k.Pc == "cl_unlink" || k.Pc == "uf_name" || k.Pc == "uf_probe" || k.Pc == "w_body" {
 				o.DateFmt = "%Y%m%d_%H%M%S" // rotations make these calls happen while messages flow
 			}
 			sc := mk(o, "inject")
 			sc.Pc = k.Pc
-			sc.Inject = injectFor(k.Pc, rng, sc.NMsgs)
+			sc.Inject = injectFor(k.Pc, rng, sc.NMsgs, k.WorkDir)
 			scs = append(scs, sc)
 		}
 	}
